@@ -211,7 +211,7 @@ func newSDriver(tier string) *sdriver {
 	}
 	vas := []va{
 		{"V", 30, d.t0 - 5, []rm.Period{P(10, 3), P(10, 3), P(10, 4)}}, // events at t0+5, +15, +25
-		{"V2", 31, d.t0 - 20, []rm.Period{P(30, 6), P(10, 1)}},          // events at t0+10, +20
+		{"V2", 31, d.t0 - 20, []rm.Period{P(30, 6), P(10, 1)}},         // events at t0+10, +20
 	}
 	if tier == "thorough" {
 		vas = append(vas, va{"V3", 32, d.t0 + 5, []rm.Period{P(10, 4)}}) // starts later: cannot liquidate, can receive
@@ -566,21 +566,30 @@ func (d *sdriver) invariant(w *world.World, p []string, res *engine.Result) {
 		viol("backing", "native coins held by the module differ from the liquid tokens in circulation", map[string]any{"module": modBal.String(), "liquid_supply": supplySum.String()})
 	}
 	// no early unlock: locked(t') summed over accounts and denoms >= locked_ref(t') for t' >= now
+	// what an account has locked at a future time is asked of the account itself (GetLockedUpCoins:
+	// the lockup periods AND the end-time shortcut of ReadSchedule), not recomputed from its periods
 	var accS []rm.Sched
+	var vas []*vtypes.ClawbackVestingAccount
+	var ends []int64
 	for _, a := range d.accts {
 		if s, va := d.lockSched(ctx, a.addr); va != nil {
 			accS = append(accS, s)
+			vas = append(vas, va)
+			ends = append(ends, va.EndTime)
 		}
 	}
 	all := append(append([]rm.Sched{}, accS...), scheds...)
-	times := rm.Times(append(all, d.ref)...)
+	times := append(rm.Times(append(all, d.ref)...), ends...)
 	sort.Slice(times, func(i, j int) bool { return times[i] < times[j] })
 	for _, t := range times {
 		if t < now {
 			continue
 		}
 		locked := rm.Amt{}
-		for _, s := range all {
+		for _, va := range vas {
+			locked = locked.Add(c09.FromCoins(sdk.NewCoins(sdk.NewCoin(world.Denom, va.GetLockedUpCoins(time.Unix(t, 0)).AmountOf(world.Denom)))))
+		}
+		for _, s := range scheds {
 			locked = locked.Add(s.Total().Sub(s.Read(t)))
 		}
 		want := d.refTot.Sub(d.ref.Read(t))
@@ -665,7 +674,7 @@ func Run(tier string) int {
 	res.Sample(map[string]any{"stateful": []string{"liquidate(V>A,half)", "time(+6)", "redeem(aLIQUID0,A>V2,half)"}, "pure": "periods=[{1 3aISLM} {2 3aISLM,7other} {3 4aISLM}] subtrahend=0..11"})
 	return engine.Finish(res, engine.Meta{
 		Property: Prop, Tier: tier, Level: "model_checking", Start: start, Replayer: Replay,
-		Rule: "pure: all period lists <=3 periods with amounts 0..4 (thorough 0..6), optional second denomination, every subtrahend 0..total+1; stateful: DFS with digest dedup over all sequences <= depth of liquidate/transfer/redeem/time-jump among 2-3 vesting accounts and 1-2 plain holders; non-trivial = successful liquidate/redeem distinct by (account, amount, time, schedule)",
+		Rule:   "pure: all period lists <=3 periods with amounts 0..4 (thorough 0..6), optional second denomination, every subtrahend 0..total+1; stateful: DFS with digest dedup over all sequences <= depth of liquidate/transfer/redeem/time-jump among 2-3 vesting accounts and 1-2 plain holders; non-trivial = successful liquidate/redeem distinct by (account, amount, time, schedule)",
 		Bounds: map[string]any{"stateful_depth": depth},
 		Assumptions: []string{
 			"messages through the msg-service router on cache contexts; block time set on the branch header",
